@@ -40,6 +40,7 @@ Report back, for each change: the diff, exactly what is needed for the violation
 """
 
 ROUNDS = {
+    "r5": "This round: NO single-token mutations. Each change must read like honest work by a maintainer - a refactoring, a clean-up, a performance tweak, a small feature or a 'robustness' fix of at least three changed lines whose author believes it preserves behaviour - that differs from the original in a corner this property covers. Aim for the less-travelled combinations: the SGE, LSF or local backends; target options and workflow defaults; templates and map; name patterns with ? and []; dotted target names; PathLike, tuple, nested or dict-valued inputs/outputs; symbolic links; spec hashing being switched on or off between invocations; histories of several gwf invocations; invocation from a sub-directory or with -f. The two changes must be in different files.",
     "r4": "This round: at least ONE of your two changes must be OUTSIDE the files named in the code anchors - in a layer the property depends on indirectly (command-line/plugin option handling, configuration lookup, backend selection and loading, workflow loading, path or name helpers, logging set-up, persistence helpers, the way one module consumes another's return value). The other may be anywhere but must use a mechanism different from all of the listed ones.",
 }
 
